@@ -258,6 +258,12 @@ class Executor:
                 finally:
                     ctx.spec_mode -= 1
                 if ghost_name is not None:
+                    if T.is_mutable(v.ty) and not z3.is_const(v.term):
+                        # name the snapshot (patterns of later facts then mention a constant,
+                        # not e.g. the if-then-else term of a merge)
+                        c = fresh(v.ty, 'ghost_' + ghost_name)
+                        o.state.assume(c.term == v.term)
+                        v = c
                     o.state.ghost[ghost_name] = v
                 else:
                     ctx.oblige(o.state, truth(v), 'assert', node, f"at `{ast.unparse(node).splitlines()[0][:60]}`: {text}")
